@@ -54,7 +54,8 @@ Step ==
                                   \cup (IF \E a, b \in 1..Len(ln.calls) : a # b /\ ln.calls[a].seat = ln.calls[b].seat /\ ln.calls[a].seat # -1 THEN {"conc.sameSeat"} ELSE {}))
         ELSE IF ln.kind = "reset"
         THEN m' = t
-             /\ h' = (IF "posAtNext" \in DOMAIN ln THEN HistSJumpWith(t, ln.posAtNext, SeqSetS(ln.occAtNext)) ELSE HistSJump(t))
+             /\ h' = (LET h0 == IF "posAtNext" \in DOMAIN ln THEN HistSJumpWith(t, ln.posAtNext, SeqSetS(ln.occAtNext)) ELSE HistSJump(t)
+                      IN IF "lastDealer" \in DOMAIN ln THEN [h0 EXCEPT !.lastDealer = ln.lastDealer] ELSE h0)
              /\ viol' = viol /\ drift' = drift /\ cnt' = Bump(cnt, {"runs"})
         ELSE LET h2 == HistSNext(h, m, t, o) IN
              /\ viol' = AddViol(viol, l + 1, FailedSeat(h, h2, m, t, o, Props))
